@@ -59,7 +59,25 @@ def run(tier, seed):
         if "panic" in o:
             v.violation("comparing identifiers panicked", {**case, "panic": o["panic"]})
             continue
+        if r.get("kind") == "variant":
+            # two different identifiers (one field apart) must be told apart everywhere
+            for p in o["obs"]:
+                if p.get("decode_failed"):
+                    v.violation("identifier (or its one-field variant) could not be decoded", case)
+                elif p["pair"] == "map":
+                    # (the zero-copy decoder need not accept the node-local form: C13 speaks about the tags sent over distribution)
+                    if p["owned_entries"] != 2 or (p["borrowed_entries"] is not None and p["borrowed_entries"] != 2) or (p["borrowed_entries"] is None and not E.has_local(r["v"])):
+                        v.violation("a map keyed by two identifiers that differ in one field does not keep both entries after decoding", {**case, "entries": p})
+                else:
+                    opposite = {"Less": "Greater", "Greater": "Less"}
+                    ok = (not p["eq"]) and (not p["eq_rev"]) and p["cmp"] != "Equal" and p["cmp_rev"] == opposite.get(p["cmp"]) and (not p["bor_eq"]) \
+                        and p["bor_cmp"] == p["cmp"] and not p["hashset_finds"] and not p["btreeset_finds"]
+                    if not ok:
+                        v.violation("two identifiers that differ in one logical field are not told apart (==, cmp, set lookup, owned vs zero-copy)", {**case, "obs": p})
+            continue
         for p in o["obs"]:
+            if p.get("pair") == "map":
+                continue
             if p.get("decode_failed"):
                 v.violation("identifier (or its other form) could not be decoded", case)
                 continue
